@@ -6,6 +6,9 @@ C02 — independence of splitting, schedule and rotation order.
 * A tiny buffer language for the per-rotation loop bodies of `corr_scoring`, `flc_scoring`, `mcc_scoring`:
   which work arrays are zero-filled, partly written (`out[out_slice]`), fully overwritten, read.  The
   programs themselves are *extracted from /repo's source on every run* (`Extracted/C02.lean`).
+* `enumJobs` (second half of this file): the jobs `scan_subsets` creates — target / template slices, padding, offset,
+  crop mode, tile and cropped shapes, device number, rotation chunks per analyzer — and the merge calls (`mergePlan`);
+  `Model/C02Run.lean` runs them through C04's analyzer / `merge` model (`scanSubsetsRun`).
 -/
 namespace Pm.C02
 
@@ -58,5 +61,106 @@ def runHistory {V R : Type} (sem : R → Nat → List V → V) (prog : Prog) : (
   | s, r :: rs =>
       let (s', o) := exec (sem r) 0 s prog
       o :: runHistory sem prog s' rs
+
+/-! ## the orchestration: which jobs `scan_subsets` creates, what each `scan` hands to its analyzers
+
+`scan_subsets` (tme/matching_exhaustive.py): `split_shape` of target and template, `itertools.product` of the two
+(target outer loop), `target_padding(pad_target_edges)`, one `subset_by_slice` + one `scan(n_jobs = inner)` per pair
+(`gpu_index = index % outer`), `callback_class.merge(results, **callback_class_args)`.
+`scan`: `_split_rotations_on_jobs(n_jobs)`, one analyzer per chunk (`n_callback_classes = n_jobs` for the shared
+`MaxScoreOverRotations`), constructed with `offset = _translation_offset` (= the *target* slice starts),
+`convolution_mode = "valid" if _is_padded else "same"`, `targetshape` = shape of the (padded) tile,
+`templateshape` = shape of the template part; `_postprocess` crops, `merge(callbacks, **default_callback_args)`.
+Ranks of target and template are equal, no batch axes (the only case `scan_subsets` is documented for). -/
+
+/-- `split_shape(equal_shape=True)`; copies of `Pm.C14` (model files are independent of each other;
+`Props/C02.lean` proves `splitShape = Pm.C14.splitShape`) -/
+def tileLen (N k : Nat) : Nat := cdiv N k
+def tileStart (N k j : Nat) : Nat := min (j * tileLen N k) (N - tileLen N k)
+def tile (N k j : Nat) : Nat × Nat := (tileStart N k j, tileStart N k j + tileLen N k)
+def splitAxis (N k : Nat) : List (Nat × Nat) := (List.range (max k 1)).map (tile N (max k 1))
+def productL {α : Type} : List (List α) → List (List α)
+  | [] => [[]]
+  | l :: ls => l.flatMap (fun x => (productL ls).map (fun r => x :: r))
+def splitShape (shape splits : List Nat) : List (List (Nat × Nat)) :=
+  productL (List.zipWith splitAxis shape splits)
+
+/-- `MatchingData.target_padding(pad_target)`: `m - m % 2` per axis of the *whole* template, or zeros -/
+def targetPad (tmpl : List Nat) (padEdges : Bool) : List Nat :=
+  tmpl.map (fun m => if padEdges then m - m % 2 else 0)
+
+/-- extent of the array `subset_array` builds on one axis of extent `N` for the slice `sl` and padding `p`
+(neighbouring voxels where the target has them, mirrored voxels beyond its ends) -/
+def paddedExtent (N : Nat) (sl : Nat × Nat) (p : Nat) : Nat :=
+  let left := (p + p % 2) / 2
+  let dl := min sl.1 left
+  let dr := min (N - sl.2) left
+  (left - dl) + ((sl.2 + dr) - (sl.1 - dl)) + (left - dr)
+
+def zipWith3 {α β γ δ : Type} (f : α → β → γ → δ) : List α → List β → List γ → List δ
+  | a :: as, b :: bs, c :: cs => f a b c :: zipWith3 f as bs cs
+  | _, _, _ => []
+
+/-- extent of the score array after `_postprocess` on one axis: `apply_convolution_mode` with `s1` the (padded)
+tile extent, `s2` the template-part extent: `s1 - s2 + s2 % 2` for "valid", `s1` for "same" -/
+def outExtent (valid : Bool) (s1 s2 : Nat) : Nat := if valid then s1 - s2 + s2 % 2 else s1
+
+/-- one call of `scan` issued by `scan_subsets`, with everything `scan` derives from its arguments -/
+structure Job (R : Type) where
+  index : Nat
+  gpuIndex : Nat                      -- `index % outer_jobs`
+  targetSlice : List (Nat × Nat)      -- `subset_by_slice(target_slice = …)`
+  templateSlice : List (Nat × Nat)    -- `subset_by_slice(template_slice = …)`
+  pad : List Nat                      -- `subset_by_slice(target_pad = …)`
+  offset : List Nat                   -- `_translation_offset` → analyzer `offset`
+  valid : Bool                        -- `_is_padded` → `convolution_mode` "valid" (else "same")
+  targetShape : List Nat              -- analyzer `targetshape` (padded tile)
+  templateShape : List Nat            -- analyzer `templateshape` (template part)
+  outShape : List Nat                 -- shape of `scores` after `_postprocess`
+  nJobs : Nat                         -- `scan(n_jobs = inner)`
+  threadSafe : Bool                   -- analyzer `thread_safe = n_jobs > 1`
+  chunks : List (List R)              -- `_split_rotations_on_jobs(inner)`: chunk `i` goes to analyzer `i`
+deriving Repr, DecidableEq
+
+/-- the `(target_split, template_split)` pairs in the order `product(target_splits, template_splits)` yields them -/
+def splitPairs (tgt tmpl tSplits mSplits : List Nat) : List (List (Nat × Nat) × List (Nat × Nat)) :=
+  (splitShape tgt tSplits).flatMap (fun t => (splitShape tmpl mSplits).map (fun m => (t, m)))
+
+def mkJob {R : Type} (tgt tmpl : List Nat) (outer inner : Nat) (rots : List R) (padEdges : Bool)
+    (tm : List (Nat × Nat) × List (Nat × Nat)) (index : Nat) : Job R :=
+  let pad := targetPad tmpl padEdges
+  let valid := decide (0 < pad.foldl (· + ·) 0)
+  let tShape := zipWith3 paddedExtent tgt tm.1 pad
+  let mShape := tm.2.map (fun s => s.2 - s.1)
+  { index := index, gpuIndex := index % outer, targetSlice := tm.1, templateSlice := tm.2, pad := pad,
+    offset := tm.1.map Prod.fst, valid := valid, targetShape := tShape, templateShape := mShape,
+    outShape := List.zipWith (outExtent valid) tShape mShape,
+    nJobs := inner, threadSafe := decide (1 < inner), chunks := splitRotations rots inner }
+
+/-- **the jobs of `scan_subsets`**, in the order the generator handed to `joblib.Parallel` creates them -/
+def enumJobs {R : Type} (tgt tmpl tSplits mSplits : List Nat) (outer inner : Nat) (rots : List R)
+    (padEdges : Bool) : List (Job R) :=
+  (splitPairs tgt tmpl tSplits mSplits).zipIdx.map (fun p => mkJob tgt tmpl outer inner rots padEdges p.1 p.2)
+
+/-- the merge calls: `scan` merges its analyzers (one per chunk; the single-entry shortcut of `merge` applies when
+`inner = 1`), `scan_subsets` merges the `scan` results in job order.  Returned as the tree of (job index, chunk index). -/
+def mergePlan {R : Type} (jobs : List (Job R)) : List (List (Nat × Nat)) :=
+  jobs.map (fun J => (List.range J.chunks.length).map (fun c => (J.index, c)))
+
+/-- what the schedule cannot change: the job without its index, device number, job count and chunking -/
+structure JobCore (R : Type) where
+  targetSlice : List (Nat × Nat)
+  templateSlice : List (Nat × Nat)
+  pad : List Nat
+  offset : List Nat
+  valid : Bool
+  targetShape : List Nat
+  templateShape : List Nat
+  outShape : List Nat
+  rots : List R                       -- all chunks, concatenated
+deriving Repr, DecidableEq
+
+def Job.core {R : Type} (J : Job R) : JobCore R :=
+  ⟨J.targetSlice, J.templateSlice, J.pad, J.offset, J.valid, J.targetShape, J.templateShape, J.outShape, J.chunks.flatten⟩
 
 end Pm.C02
